@@ -747,7 +747,7 @@ def run(ctx):
         "program paths of one collection are pairwise distinct (they are distinct files of one directory)",
         "ignore_timestamps=True (the timestamp is an opaque input string of the model)",
     ]
-    if not ctx.violations and (not ctx.proofs_ok or ctx.broken):
+    if (not ctx.proofs_ok or ctx.broken) and not any(v.get("signature") is None for v in ctx.violations):
         ctx.violations.append({
             "no_input": True,
             "what": "a proof or a correspondence stream no longer checks",
